@@ -331,7 +331,15 @@ def check_gate_forms(sys, nm, ids, want_u, want_hs, lindblad=True):
             out.append(("effective_lindbladian", "EffectiveLindbladian.hs differs from effective_lindbladian_mat"))
         if not el.is_physical(1e-8, 1e-8):
             out.append(("effective_lindbladian:physical", "catalogued Lindbladian judged non-physical"))
-        if not close(el.to_gate().hs, gm, 1e-8):
+        try:
+            exp_hs = el.to_gate().hs
+        except ValueError:
+            # to_gate() builds the gate with the library's default tolerance (1e-13); for 81 x 81 matrices the smallest
+            # Choi eigenvalue of expm(L) can be -1.1e-13 (seen for 01z01z180_02y02y180).  Rounding at the default
+            # tolerance is not a catalogue error: exponentiate here and compare at the check's own tolerance.
+            from scipy.linalg import expm
+            exp_hs = expm(np.asarray(el.hs, dtype=float))
+        if not close(exp_hs, gm, 1e-8):
             out.append(("effective_lindbladian:exp", "exponential of the catalogued Lindbladian differs from the catalogued gate"))
     return out
 
